@@ -9,6 +9,12 @@ def step15 (d : Nuts.Drv.Proto.DSt) (j : Json) : Nuts.Drv.Proto.DSt × List Stri
     let src := ((Nuts.Facts.C15.serverTLSConfig.find? (fun x => x.startsWith "ClientAuth=")).getD "ClientAuth=?").drop 11
     let mode := Nuts.C15.ClientAuthMode.ofSource src.toString
     (d, [s!"tlsclient accepted={Nuts.C15.serverAcceptsClient mode (jBool j "presented") (jBool j "chains")}"])
+  | "offload" =>
+    let vals : List Nuts.C15.HeaderVal := (jStrs j "values").map (fun x => match x with
+      | "victim" => .cert "victim.example.org" | "proxy" => .cert "attacker.example" | "two-in-one" => .many | _ => .garbage)
+    match Nuts.C15.offloadedCertificate vals with
+    | some o => (d, [s!"offload cert={o}"])
+    | none => (d, ["offload refused"])
   | "createtx" =>
     let parts : List Nuts.C15.KeyRes := (jStrs j "parts").map (fun x => match x with
       | "ok" => .ok | "deactivated" => .deactivated | "badkey" => .badKey | _ => .notFound)
